@@ -121,6 +121,23 @@ func (p *Program) normaliseOnce(known map[string]bool, round int) (map[string][]
 		if b == nil {
 			continue
 		}
+		// `defer H(a, b)`: when nothing the call names can change before the
+		// function returns, it is `defer func() { H(a, b) }()`, whose call the
+		// next round inlines like any other statement
+		if ds, isDefer := p.Parent(cs.In.File, cs.Call).(*ast.DeferStmt); isDefer && ds.Call == cs.Call {
+			if !p.stableCallOperands(cs) {
+				continue
+			}
+			start, end := file.Offset(cs.Call.Pos()), file.Offset(cs.Call.End())
+			if busyStmt[ds] {
+				continue
+			}
+			busyStmt[ds] = true
+			edits[fname] = append(edits[fname], textEdit{start, end, "func() { " + string(b[start:end]) + " }()"})
+			everInlined[cand.fs.Name] = true
+			notes = append(notes, fmt.Sprintf("deferred call of %s in %s at %s wrapped in a function literal", cand.fs.Name, cs.In.Root().Name, p.PosStr(cs.Call.Pos())))
+			continue
+		}
 		seq++
 		tag := fmt.Sprintf("_i%d_%d", round, seq)
 		ed, stmt, ok := p.inlineAt(cs, cand, tag, read)
@@ -1142,4 +1159,73 @@ func accessPath(e ast.Expr) bool {
 		return true
 	}
 	return false
+}
+
+// stableCallOperands: the receiver and arguments of the call are constants or
+// local variables / parameters that the enclosing function assigns nowhere
+// but at their declaration and whose address it never takes: evaluating them
+// when the function returns gives what evaluating them now gives.
+func (p *Program) stableCallOperands(cs *CallSite) bool {
+	info := cs.In.Pkg.TypesInfo
+	root := cs.In.Root()
+	var ops []ast.Expr
+	if sel, ok := unparen(cs.Call.Fun).(*ast.SelectorExpr); ok {
+		if _, isSel := info.Selections[sel]; isSel {
+			ops = append(ops, sel.X)
+		}
+	}
+	ops = append(ops, cs.Call.Args...)
+	vars := map[types.Object]bool{}
+	for _, e := range ops {
+		e = unparen(e)
+		if tv, ok := info.Types[e]; ok && tv.Value != nil {
+			continue
+		}
+		id, ok := e.(*ast.Ident)
+		if !ok {
+			return false
+		}
+		if id.Name == "nil" && info.Uses[id] == types.Universe.Lookup("nil") {
+			continue
+		}
+		v, ok := info.Uses[id].(*types.Var)
+		if !ok || v.IsField() || v.Parent() == nil || v.Parent() == v.Pkg().Scope() {
+			return false
+		}
+		vars[v] = true
+	}
+	ok := true
+	ast.Inspect(root.Body(), func(n ast.Node) bool {
+		switch x := n.(type) {
+		case *ast.AssignStmt:
+			for _, l := range x.Lhs {
+				if id, isId := unparen(l).(*ast.Ident); isId {
+					if x.Tok == token.DEFINE && info.Defs[id] != nil {
+						continue // its declaration
+					}
+					if vars[info.ObjectOf(id)] {
+						ok = false
+					}
+				}
+			}
+		case *ast.IncDecStmt:
+			if id, isId := unparen(x.X).(*ast.Ident); isId && vars[info.ObjectOf(id)] {
+				ok = false
+			}
+		case *ast.UnaryExpr:
+			if x.Op == token.AND {
+				if id, isId := unparen(x.X).(*ast.Ident); isId && vars[info.ObjectOf(id)] {
+					ok = false
+				}
+			}
+		case *ast.RangeStmt:
+			for _, e := range []ast.Expr{x.Key, x.Value} {
+				if id, isId := e.(*ast.Ident); isId && x.Tok == token.ASSIGN && vars[info.ObjectOf(id)] {
+					ok = false
+				}
+			}
+		}
+		return true
+	})
+	return ok
 }
